@@ -98,6 +98,13 @@ func (r *Runner) RunConcHistory(histNo int, o ConcOpts) error {
 					break
 				}
 			}
+			if q.VectorVamana != nil && rr.R.Intn(6) == 0 {
+				// a composite request with a sub-query on a property the schema does not have, next to the
+				// vector search: the request is refused, and that is all that happens
+				kind = "bad"
+				q = models.Query{Property: "_or", Or: []models.Query{
+					{Property: "nosuchprop", Integer: &models.SearchIntegerOptions{Value: 1, Operator: models.OperatorEquals}}, q}}
+			}
 		}
 		// select everything, or one or two named top-level fields (the partial decoding path)
 		sel, selReq := []string{}, []string{"*"}
@@ -215,6 +222,10 @@ func (r *Runner) RunConcHistory(histNo int, o ConcOpts) error {
 	wg.Wait()
 	// the searches, with their version windows (version k = state after k write events)
 	for _, cs := range found {
+		if cs.kind == "bad" {
+			r.TW.Emit("BadQuery", M{"refused": b2i(cs.err != ""), "a": cs.a, "b": cs.b})
+			continue
+		}
 		if cs.err != "" {
 			r.TW.Emit("Err", M{"what": "ConcurrentSearch/" + cs.kind, "err": errStr(errString(cs.err)), "a": cs.a, "b": cs.b})
 			continue
